@@ -77,7 +77,7 @@ type Run struct {
 	start        time.Time
 	evals        int64
 	distinct     map[string]struct{}
-	samples      []any
+	samples      []any // never nil in the evidence
 	maxSamples   int
 	events       map[string]int64
 	violations   []violation
@@ -305,7 +305,7 @@ func (r *Run) Finish() int {
 		status = 1
 	}
 	if !r.replayMode {
-		if r.evals == 0 || len(r.distinct) < 2 {
+		if r.evals == 0 || len(r.distinct) < 2 || len(r.samples) == 0 {
 			fmt.Printf("HARNESS-FAILURE property=%s observed nothing (evaluations=%d distinct=%d)\n", r.ID, r.evals, len(r.distinct))
 			if status == 0 {
 				status = 2
